@@ -53,4 +53,51 @@ end
 /-- **the supported region of the XML parser model** -/
 def xmlSupported (e : BEnv) (Γ : Ctx) (t : Tree) : Bool := ctxSupported Γ && treeSupported e Γ t
 
+
+/-! ### JSON -/
+
+/-- a field the decoder model follows: no compound / wildcard / anyType / union-of-classes field,
+a default `parse_var` follows, and an `xs:anyAttribute` field that is neither a list nor tokens -/
+def dictVarSupported (v : XmlVar) : Bool :=
+  !v.isElements && v.elements.isEmpty && !v.anyType && !v.isWildcard && !v.isClazzUnion
+    && varSupported v.toVarCore && (!v.isAttributes || (!v.listElement && !v.tokens))
+
+def dictMetaSupported (m : XmlMeta) : Bool := (allVars m).all dictVarSupported
+
+def dictCtxSupported (Γ : Ctx) : Bool :=
+  Γ.classes.all fun ci => ci.metas.all fun p => dictMetaSupported p.2
+
+mutual
+/-- nesting depth of arrays and objects -/
+def J.depth : J → Nat
+  | .arr xs => 1 + depthList xs
+  | .obj kvs => 1 + depthPairs kvs
+  | _ => 0
+def depthList : List J → Nat
+  | [] => 0
+  | x :: xs => max x.depth (depthList xs)
+def depthPairs : List (Str × J) → Nat
+  | [] => 0
+  | kv :: kvs => max kv.2.depth (depthPairs kvs)
+end
+
+mutual
+/-- no object of the document, at any depth, is spelled like a generic `AnyElement` -/
+def jsonSupported : J → Bool
+  | .arr xs => listSupported xs
+  | .obj kvs => !isGeneric kvs anyRequired anyKeys && pairsSupported kvs
+  | _ => true
+def listSupported : List J → Bool
+  | [] => true
+  | x :: xs => jsonSupported x && listSupported xs
+def pairsSupported : List (Str × J) → Bool
+  | [] => true
+  | kv :: kvs => jsonSupported kv.2 && pairsSupported kvs
+end
+
+/-- **the supported region of the dict/JSON decoder model**: the universe, the document, and
+enough fuel for its depth (the driver supplies `4 * depth + 16`) -/
+def dictSupported (Γ : Ctx) (fuel : Nat) (data : J) : Bool :=
+  dictCtxSupported Γ && jsonSupported data && decide (3 * data.depth + 1 ≤ fuel)
+
 end Xs.Fault
